@@ -4,6 +4,7 @@
 //! Every sub-command drives the real code and writes an ndjson trace that the
 //! corresponding *_Trace.tla specification validates with TLC.
 mod bloom;
+mod free;
 mod keyhash;
 mod cache;
 mod scenario;
@@ -39,6 +40,7 @@ fn main() {
     let code = match cmd.as_str() {
         "sketch" => sketch::run(&o),
         "bloom" => bloom::run(&o),
+        "free" => free::run(&o),
         "keyhash" => keyhash::run(&o),
         "cache" => cache::run(&o),
         "scenario" => scenario::run(&o),
